@@ -54,6 +54,7 @@ func runC08(c *Ctx) {
 	c08Dispatch(c)
 	runC07H2(c, "C08.B1", "C08.B7")
 	runHpackBounds(c, "C08.B8", true)
+	runHpackAllocs(c, "C08.B4")
 }
 
 // B4
